@@ -320,6 +320,9 @@ func (h *Holder) limitedSchema() []*IndexInfo {
 
 // applySchema applies an internal Schema to Holder.
 func (h *Holder) applySchema(schema *Schema) error {
+	if schema == nil {
+		return errors.New("no schema to apply")
+	}
 	// Create indexes that don't exist.
 	for _, index := range schema.Indexes {
 		idx, err := h.CreateIndexIfNotExists(index.Name, index.Options)
